@@ -26,6 +26,9 @@ CollStores == { [i \in {1} |-> Absent], [i \in {1} |-> 1] }
 Coll2Programs == CollPrograms \cup { Add(2, 1), Del(2), Inc(2, 1), Upsert(2, 2) }
 Coll2Stores == { [i \in {1, 2} |-> Absent], [i \in {1, 2} |-> IF i = 1 THEN 1 ELSE Absent], [i \in {1, 2} |-> 1] }
 
+\* fewer programs when subscribers multiply the interleavings
+SubValPrograms == { Set(1, 1), Set(1, 2), Inc(1, 1), Cas(1, 0, 3) }
+SubCollPrograms == { Set(1, 1), Add(1, 2), Upsert(1, 3), IncUp(1, 1), Del(1) }
 Kinds == { [uo |-> FALSE], [uo |-> TRUE] }
 KindsSeed == { [uo |-> FALSE] }
 
@@ -50,5 +53,5 @@ EmitSched == Terminal =>
                             expect |-> [final |-> [i \in 1..NI |-> store[i].v],
                                         errs  |-> [w \in 1..NW |-> loc[w].err],
                                         views |-> [s \in 1..NS |-> [i \in 1..NI |-> view[s][i]]],
-                                        converged |-> Converged]]))
+                                        converged |-> Converged, commitValid |-> CommitValid]]))
 =============================================================================
